@@ -1260,6 +1260,8 @@ def explore(make_eval, run, preset=None, limit=20000, constraint=None):
         try:
             v = run(ev)
             leaves.append(Leaf(dec, value=v, effects=ev.effects, arm_line=(ev.last_arm or {}).get("line"), summaries=ev.summaries))
+        except ReturnEx as r_:
+            leaves.append(Leaf(dec, value=r_.value, effects=ev.effects, summaries=ev.summaries))
         except NeedDecision as nd:
             for val in reversed(nd.domain):
                 d2 = dict(dec)
